@@ -17,22 +17,18 @@ type Date struct {
 var _ objecttypes.Value = Date{}
 
 func MapDate(lexicalForm string) (Date, error) {
-	lexicalForm = xsdutil.WhiteSpaceCollapse(lexicalForm)
-
-	for _, layout := range []string{
+	parsed, layout, ok := parseTimeLexicalForm(xsdutil.WhiteSpaceCollapse(lexicalForm), dateLexicalRE,
 		"2006-01-02",
 		"2006-01-02Z07:00",
-	} {
-		parsed, err := time.Parse(layout, lexicalForm)
-		if err == nil {
-			return Date{
-				Time:   parsed,
-				Layout: layout,
-			}, nil
-		}
+	)
+	if !ok {
+		return Date{}, rdf.ErrLiteralLexicalFormNotValid
 	}
 
-	return Date{}, rdf.ErrLiteralLexicalFormNotValid
+	return Date{
+		Time:   parsed,
+		Layout: layout,
+	}, nil
 }
 
 func (v Date) AsObjectValue() rdf.ObjectValue {
